@@ -9,7 +9,7 @@ This module contains gateware designed to assist with endpoint/transfer state ma
 Its components facilitate data transfer longer than a single packet.
 """
 
-from amaranth            import Signal, Elaboratable, Module, Array
+from amaranth            import Signal, Elaboratable, Module, Array, Mux
 from amaranth.lib.memory import Memory
 
 from .packet             import HandshakeExchangeInterface, TokenDetectorInterface
@@ -248,8 +248,10 @@ class USBInTransferManager(Elaboratable):
 
                         # We're now ready to take the data we've captured and _transmit_ it.
                         # We'll swap our read and write buffers, and toggle our data PID.
+                        # (If our PID sequence is being reset in this very cycle, the toggle applies
+                        # to the reset value rather than overriding the reset.)
                         self.buffer_toggle  .eq(~self.buffer_toggle),
-                        self.data_pid[0]    .eq(~self.data_pid[0]),
+                        self.data_pid[0]    .eq(Mux(self.reset_sequence, self.start_with_data1, ~self.data_pid[0])),
 
                         # Mark our current stream as no longer having ended.
                         read_stream_ended  .eq(0)
